@@ -8,6 +8,11 @@ ENGINES = [
     {"name": "M0 program model", "path": "geolint/model.py", "serves_properties": [], "kind_free_text": "AST index: modules, imports, classes, C3 MRO, functions, name resolution"},
     {"name": "E2/E3/E4.V1 operator consistency", "path": "geolint/dunder.py", "serves_properties": ["C19"], "kind_free_text": "syntax-tree rules over super() sites, dunder returns, dispatch-table literals, constructor index-set discipline"},
     {"name": "E6 kind closure", "path": "geolint/kinds.py", "serves_properties": ["C04", "C14", "C06"], "kind_free_text": "class-table rules: element-class registry, __getitem__ re-wrap by MRO, type(self)(...) reconstruction vs subclass constructors, __apply__ result kind and derived caches, np.empty buffer coverage"},
+    {"name": "E10 intersection plumbing", "path": "geolint/intersect.py", "serves_properties": ["C18"], "kind_free_text": "context-sensitive AST rules over the intersect implementations: filter conjuncts per narrowed operand kind, exception-handler mask plumbing, distinct wrapping, is_zero compensation"},
+    {"name": "E7 error discipline", "path": "geolint/errors.py", "serves_properties": ["C02", "C05", "C11"], "kind_free_text": "role-based: raise sites of a documented error class, call-graph reachability from entry points, handler interception, validate-before-use ordering, payload agreement"},
+    {"name": "call graph", "path": "geolint/callgraph.py", "serves_properties": ["C02", "C05", "C11", "C12"], "kind_free_text": "callee resolution by names, annotation-derived receiver types with dynamic dispatch over subclasses, super(), properties, operators; CHA fallback"},
+    {"name": "E4.V2/V3 + E8 variance and conjugation", "path": "geolint/variance.py", "serves_properties": ["C07", "C08"], "kind_free_text": "constant propagation of covariant=/tensor_rank= through super().__init__ chains along the MRO; diagram-edge discipline in __apply__; translation-conjugation idiom"},
+    {"name": "mutation self-test", "path": "geolint/selftest.py", "serves_properties": [], "kind_free_text": "in-memory textual variants of the current tree: breaking variants must be reported with the named rule, twins must be silent"},
     {"name": "E9 kind dispatch", "path": "geolint/dispatch.py", "serves_properties": ["C09"], "kind_free_text": "decision-list evaluation of isinstance dispatch over all ordered pairs of concrete kinds with static class hierarchy; reduction graph, cycles, documented pairs, kind-blind equality short-cut"},
 ]
 
@@ -51,5 +56,35 @@ CHECKS = [
         "technique": "constructor-signature compatibility of type(self)(...) / class-valued-local reconstruction sites against the __init__ of every inheriting concrete subclass",
         "text": "One clause of C14: 'dual ... works for every quadric class' - the object construction inside QuadricTensor.dual (and therefore is_tangent) is accepted by the constructor that is actually selected for every concrete quadric subclass (Circle, Ellipse, Sphere, Cone, Cylinder, Conic, Quadric, QuadricCollection). All numeric clauses (intersection points, tangency, pole/polar reciprocity, involution) are NOT decided.",
         "note": "parameter annotations of the subclass constructors are the oracle for 'accepts an ndarray'",
+    },
+    {
+        "id": "C02", "engine": "E7 error discipline", "design_ref": "4 (E7), 5 C02",
+        "technique": "raise-site role search, call-graph reachability from the documented entry points, handler interception search, validate-before-use ordering of the zero test, payload/guard agreement",
+        "text": "Structural half of C02: LinearDependenceError and NotCoplanar are raised somewhere reachable from join, meet, Point.join, Subspace.meet/join, Line(p,q), Plane(...); the zero test reads the contraction before it is normalised, changed or returned; in the collection case the mask passed is the array whose np.any() is the guard; no try/except inside the entry points' own call tree intercepts the error. Exhaustive over today's raise sites and handlers. 'Exactly when' (the tolerance arithmetic of is_zero, the double-epsilon coplanarity test) is NOT decided.",
+        "note": "call graph over-approximates dynamic dispatch; handlers that both call and are called from an entry point are UNDECIDED",
+    },
+    {
+        "id": "C07", "engine": "E4.V2/V3 + E8 variance and conjugation", "design_ref": "4 (E4 V2, V3), 5 C07",
+        "technique": "constant propagation through constructor chains along the C3 MRO; AST rule on diagram edges of __apply__",
+        "text": "Variance clauses of C07 only: for every concrete projective class the constructor chain assigns the index types C07's mechanism sentence names (points covariant, hyperplanes/lines/quadrics contravariant, dual quadrics covariant, transformations (1,1)); the generic action contracts covariant indices with the matrix and contravariant indices with an inverse, tensor_shape[0] resp. [1] times. Commutation with join/meet, the basis-point transform and cross-ratio invariance are numeric and NOT decided.",
+        "note": "thin claim by design; unresolvable constructor chains are UNDECIDED",
+    },
+    {
+        "id": "C08", "engine": "E4.V2/V3 + E8 variance and conjugation", "design_ref": "4 (E8), 5 C08",
+        "technique": "AST idiom rule on product chains translation(e1) * M * translation(e2), names resolved through single assignments",
+        "text": "ONE clause of C08: wherever a map is conjugated by a translation (reflection about a mirror off the origin, Cone, RegularPolygon) the outer factors are a translation and its inverse - the suite only mirrors through the origin where the sign is invisible. All numeric content (affine embedding, Rodrigues formula, frame maps, conic map) is NOT decided.",
+        "note": "thinnest claim of the set, labelled so; zero instances or an unrecognised idiom give UNDECIDED, never an alarm",
+    },
+    {
+        "id": "C11", "engine": "E7 error discipline", "design_ref": "4 (E7, E5), 5 C11",
+        "technique": "raise-site/reachability/interception rules for NotCollinear and NotConcurrent, guard predicate over all four arguments; homogeneity-degree typing of the returned quotient",
+        "text": "Error clause of C11 (NotCollinear/NotConcurrent raised, reachable from crossratio, guarded by a predicate over all four arguments, not intercepted) and the balance clause (the returned quotient has homogeneity degree 0 in each argument on the decided paths - necessary for a projective invariant). Which permutation is computed, the 0/0 positions and harmonic_set are NOT decided.",
+        "note": "the plane path of crossratio is UNDECIDED for the balance clause (goes through basis_matrix)",
+    },
+    {
+        "id": "C18", "engine": "E10 intersection plumbing", "design_ref": "4 (E10), 5 C18",
+        "technique": "context-sensitive AST rules (enclosing isinstance arms and exception handlers) over the three intersect implementations",
+        "text": "Plumbing of C18 on all paths including both exception handlers never executed by the suite: every bounded operand's membership test is a conjunct of the filter applied to the meet result, the dependent_values mask is applied to every collection operand and only under a guard that really separates collections from single objects, facet results pass through distinct, suppressed dependence checks are compensated by ~is_zero(). Geometric correctness of meet and contains is NOT decided.",
+        "note": "filters hidden in helper calls are UNDECIDED",
     },
 ]
